@@ -5,10 +5,16 @@ derivative orders, open and periodic direction, observed through unit-vector res
 (one field with L components, component c = unit vector e_c) with the cell size a power of two, so
 that every number involved is exactly representable and the comparison is `==`.
 Sampled part: 1-4-dimensional meshes, every axis, random masks / values / labels.
+Scale / offset part (kind "offs", and the grid cases with "voff"): the same clauses on data whose constant term
+dominates (values of a run within 2^-7 ... 2^-34 / 1e-3 ... 1e-11 relative of each other), on magnitudes
+1e-12 ... 1e12, cell sizes 1e-9 ... 1e6 and regions far from the origin; oracle = the per-run stencil matrix /
+the analytic derivative evaluated in exact rational arithmetic (fractions.Fraction) on the floating-point inputs;
+dyadic inputs are compared with ==, decimal inputs within 64 ulp of max|run values| / dx^order.
 
 The oracle is written out by hand from the property statement (coefficient tables below); it never
 calls np.gradient, np.convolve or anything of discretisedfield."""
 import itertools
+from fractions import Fraction as Fr
 import numpy as np
 import discretisedfield as df
 from .common import raises, ulp_close
@@ -19,25 +25,36 @@ CLAUSES = {
     "C04.poly_exact": "a run longer than the order returns the exact derivative of a polynomial of degree <=2 (order 1; <=1 on two-cell runs) / <=3 (order 2; <=2 on three-cell runs); a different polynomial on every run, integer coefficients, dx a power of two, compared with ==",
     "C04.zero_short_invalid": "invalid cells and runs not longer than the derivative order yield exactly zero, whatever values they hold",
     "C04.run_isolation": "a cell's result does not depend on values outside its own run: response-matrix entries outside the run are zero, and replacing every value outside a run (invalid cells by +-1e300, other runs by new numbers) leaves the run's result bitwise unchanged",
+    "C04.poly_exact_offset": "as poly_exact, for polynomials whose constant term dominates (values of a run within 2^-7 ... 2^-34 relative of each other) or is absent, at magnitudes 2^-40 ... 2^40 (1e-12 ... 1e12), dx = 2^-30 ... 2^20, regions up to 2^24 cells away from the origin: dyadic data (integer multiples of a quantum, < 2^46 quanta, every stencil intermediate representable) compared with == to the analytic derivative; decimal data (300 + 1e-4 x, 8e5 + 1e-3 x, C (1 + r b(u)), r = 1e-3 ... 1e-11, dx = d 10^-9..6) within 64 ulp of max|run values|/dx^order (+ order * 2 ulp(max|corner|)/(L dx) relative, the rounding of the cell size carried by decimal region corners); also with restrict2valid=False on fully valid lines",
+    "C04.exact_rational": "open line, any data at these scales (a polynomial per run, values of the same scale in the invalid cells; a constant line; a constant line with one deviating cell, |deviation| << |constant|), restrict2valid on and off: result == the per-run stencil matrix applied to the floating-point values in exact rational arithmetic (dyadic: ==; decimal: within 64 ulp of max|run values|/dx^order + the corner rounding as in poly_exact_offset)",
+    "C04.offset_invariance": "linearity with a constant: diff(g + c) == diff(g) (+ diff(c) = 0) for a per-component constant c with |c| up to 2^34 max|g|: bitwise for dyadic data (g + c exact), within 64 ulp of max(|g|, |g + c|)/dx^order over the run for decimal data; both orders, open and periodic, restrict2valid on and off",
     "C04.linearity": "diff(a*f+b*g) == a*diff(f)+b*diff(g) within 64 ulp of (|a|max|f|+|b|max|g|)/dx^order",
-    "C04.per_line_component": "on 1-4-d meshes, along every axis, every component of every grid line equals the 1-d oracle matrix of that line's mask applied to that line's values (== for integer values and power-of-two cells, else within 64 ulp of max|line values|/dx^order)",
+    "C04.per_line_component": "on 1-4-d meshes, along every axis, every component of every grid line equals the 1-d oracle matrix of that line's mask applied to that line's values (== for integer values and power-of-two cells, else within 64 ulp of max|line values|/dx^order; the 'voff' cases repeat this on values dominated by a per-component constant (relative variation 1e-4 ... 1e-10, magnitudes 1e-12 ... 1e12), cells 2^-30 ... 2^20 / 1e-9 ... 1e6 and regions up to 4e6 cells away from the origin, decimal far-away regions with the additional relative term order * 2 ulp(max|corner|)/(n dx))",
     "C04.line_independence": "changing the values of one grid line of one component leaves every other line and component bitwise unchanged",
     "C04.metadata": "the result keeps the mesh, vdims, unit, vdim_mapping and the validity mask, and has the shape of the field",
     "C04.restrict_off": "restrict2valid=False treats the whole line as one run (response matrix of the all-valid mask), validity mask still kept",
-    "C04.ring_centred": "periodic direction, fully valid ring (or restrict2valid=False): response matrix == circulant centred difference with wrap-around ((-1/2,0,1/2)/dx, (1,-2,1)/dx^2), exactly, for every ring length >= 1",
-    "C04.ring_shift": "periodic direction: diff of the cyclically shifted field (values and mask) == cyclically shifted diff, bitwise, for every mask",
-    "C04.ring_runs": "periodic direction with invalid cells: the ring cut open at an invalid cell is an open line; the response matrix equals the open-line oracle of the cut ring (runs may wrap around the boundary)",
+    "C04.ring_centred": "periodic direction, fully valid ring (or restrict2valid=False): response matrix == circulant centred difference with wrap-around ((-1/2,0,1/2)/dx, (1,-2,1)/dx^2), exactly, for every ring length >= 1; the same circulant applied in exact rational arithmetic to offset-dominated / tiny / huge data (kind offs)",
+    "C04.ring_shift": "periodic direction: diff of the cyclically shifted field (values and mask) == cyclically shifted diff, bitwise, for every mask (unit vectors; offset-dominated / tiny / huge data with restrict2valid on and off)",
+    "C04.ring_runs": "periodic direction with invalid cells: the ring cut open at an invalid cell is an open line; the response matrix equals the open-line oracle of the cut ring (runs may wrap around the boundary); the same matrix applied in exact rational arithmetic to offset-dominated / tiny / huge data (kind offs)",
 }
 RULE = ("line: every (L, mask) with 1 <= L <= 10 (quick) / 14 (thorough) and all 2^L masks, open and periodic, both orders, "
         "dx = 2^e and offset drawn from the seed; grid: seeded 1-4-d meshes (n <= 6 per axis, anisotropic cells, renamed dims, "
         "1-5 components, random masks of density 1/0.9/0.7/0.5, periodic subsets of the directions), every axis, both orders; "
+        "offs: every (L, mask) with L <= 8 (quick) / 10 (thorough), open and periodic, dyadic data (dx = 2^e, e in -30..20, region offset up to 2^24 cells, "
+        "4 components of fixed scale classes: tiny without offset, offset-dominated, random, huge), plus seeded longer lines (L <= 12) and seeded decimal "
+        "lines (dx = d*10^-9..6, magnitudes 1e-12..1e12, literal families 300+1e-4x, 8e5+1e-3x, 2^20+x^2/16); grid cases with 'voff' repeat the grid "
+        "clauses on offset-dominated values and far-away regions; "
         "trivial = L == 1 / single-cell mesh; distinct by (kind, params)")
 ASSUMPTIONS = ["bounded: line lengths <= 14 exhaustively in the masks; values by unit vectors + linearity clause + seeded samples",
                "bounded: multi-dimensional meshes sampled (<= 6 cells per axis, <= 4 dims, <= 5 components)",
-               "trusted: numpy elementwise arithmetic, Field construction from an array and a boolean valid array"]
+               "bounded: scale/offset region sampled per case (one draw of magnitude, closeness ratio, cell size and region offset per component and case)",
+               "trusted: numpy elementwise arithmetic, Field construction from an array and a boolean valid array, fractions.Fraction"]
 BUDGET_S = {"quick": 120, "thorough": 1500}
 
 SIG_WRAP = "periodic-run-across-boundary-truncated"
+# Field.diff builds a one-layer mesh with Mesh.sel -> Mesh(cell=...), whose divisibility test uses the absolute tolerance
+# 1e-3 * min(cell) for every axis: strongly anisotropic cells far from the origin (ulp(corner) > 1e-3 * min(cell)) raise
+SIG_SEL = "diff-raises-divisibility-anisotropic-far-region"
 
 
 # ------------------------------------------------------------------ oracle (hand-written tables)
@@ -200,12 +217,46 @@ def cases(ctx):
         yield "grid", {"n": [2, 1, 3], "cell": [1e-9, 3e-9, 0.7e-9], "p1": [1e-9, 0.0, -5e-9], "dims": ["x", "y", "z"], "bc": "",
                        "nvdim": 2, "vdims": ["ma", "mb"], "mapping": None, "unit": None,
                        "density": dens, "exact": False, "seed": 6}
+    # scale / offset region: lines (kind offs) and grids with offset-dominated values in far-away regions
+    yield from _offs_cases(ctx)
+    for ndim in (1, 2, 3, 4):
+        for bcmode in ("open", "some", "all"):
+            for exact in (True, False):
+                for _ in range(3 if ctx.tier == "quick" else 12):
+                    hi = {1: 9, 2: 6, 3: 5, 4: 4}[ndim]
+                    n = rng.integers(1, hi + 1, size=ndim).tolist()
+                    if max(n) < 4:
+                        n[int(rng.integers(ndim))] = int(rng.integers(4, hi + 1))
+                    dims = [str(d) for d in rng.choice(names, size=ndim, replace=False)]
+                    far = rng.integers(0, 3, size=ndim)                  # 0 near the origin, 1: ~2^12 cells away, 2: ~2^22 cells away
+                    sgn = np.where(rng.random(ndim) < 0.5, -1, 1)
+                    if exact:
+                        cell = (2.0 ** rng.integers(-30, 21, size=ndim)).tolist()
+                        p1 = (np.array(cell) * (sgn * (np.array([0, 1 << 12, 1 << 22])[far] + rng.integers(-5, 6, size=ndim)))).tolist()
+                    else:
+                        cell = (np.round(rng.uniform(1, 10, size=ndim), 2) * 10.0 ** rng.integers(-9, 6, size=ndim)).tolist()
+                        p1 = (np.array(cell) * sgn * (np.array([0.0, 4e3, 4e6])[far] + rng.uniform(-20, 20, size=ndim))).tolist()
+                    if bcmode == "open":
+                        bc = ""
+                    elif bcmode == "all":
+                        bc = "".join(dims)
+                    else:
+                        k = int(rng.integers(1, ndim + 1))
+                        bc = "".join(str(d) for d in rng.choice(dims, size=k, replace=False))
+                    nvdim = int(rng.integers(1, 5))
+                    vdims = [str(v) for v in rng.choice(vnames, size=nvdim, replace=False)]
+                    yield "grid", {"n": n, "cell": cell, "p1": p1, "dims": dims, "bc": bc, "nvdim": nvdim,
+                                   "vdims": vdims if nvdim > 1 else None, "mapping": None, "unit": units[int(rng.integers(len(units)))],
+                                   "density": [1.0, 0.9, 0.7][int(rng.integers(3))], "exact": exact,
+                                   "voff": [1e-4, 1e-6, 1e-8, 1e-10][int(rng.integers(4))], "seed": int(rng.integers(1 << 30))}
 
 
 # ------------------------------------------------------------------ checks
 def check(kind, pr, ctx):
     if kind == "line":
         return check_line(pr, ctx)
+    if kind == "offs":
+        return check_offs(pr, ctx)
     return check_grid(pr, ctx)
 
 
@@ -425,6 +476,19 @@ def check_grid(pr, ctx):
     else:
         F = rng.uniform(-1, 1, size=shape) * 10.0 ** rng.uniform(-6, 6)
         G = rng.uniform(-1, 1, size=shape) * 10.0 ** rng.uniform(-6, 6)
+    voff = pr.get("voff")
+    if voff is not None:
+        # offset-dominated values: every component of f and g sits on its own large constant, variation ~ voff * constant
+        if exact:
+            big = 1 << min(44, max(8, int(np.log2(40.0 / voff))))
+            F = F + (big + rng.integers(0, 50, size=nv)) * np.where(rng.random(nv) < 0.5, -1.0, 1.0)
+            G = G + (big + rng.integers(0, 50, size=nv)) * np.where(rng.random(nv) < 0.5, -1.0, 1.0)
+            q = 2.0 ** int(rng.integers(-70, 0))
+            F, G = F * q, G * q
+        else:
+            C = rng.uniform(1, 10, size=nv) * 10.0 ** rng.integers(-12, 13, size=nv) * np.where(rng.random(nv) < 0.5, -1.0, 1.0)
+            F = C * (1.0 + voff * rng.uniform(-1, 1, size=shape))
+            G = C[::-1] * (1.0 + voff * rng.uniform(-1, 1, size=shape))
     valid = rng.random(tuple(n)) < pr["density"]
     kw = dict(nvdim=nv, vdims=pr["vdims"], unit=pr["unit"], vdim_mapping=pr["mapping"])
     f = df.Field(mesh, value=F.copy(), valid=valid.copy(), **kw)
@@ -439,16 +503,23 @@ def check_grid(pr, ctx):
         for order in (1, 2):
             r, d = raises(Exception, f.diff, dname, order=order)
             if r:
-                ctx.require(False, "C04.per_line_component", "diff raised", sig="raises-" + type(d).__name__, error=repr(d),
+                sig = "raises-" + type(d).__name__
+                if isinstance(d, ValueError) and "cannot be divided" in str(d):
+                    sig = SIG_SEL
+                ctx.require(False, "C04.per_line_component", "diff raised", sig=sig, error=repr(d),
                             axis=axis, order=order)
                 continue
             out = d.array
             ctx.require(_meta_ok(d, f), "C04.metadata", "mesh/vdims/unit/vdim_mapping/valid not kept", axis=axis, order=order)
             exp, scale, wrapcells = _oracle_axis(F, valid, axis, order, dx, periodic, exact)
+            # far-away decimal regions (voff cases): the corners carry the cell size only to 2 ulp(max|corner|)/(n dx) relative
+            geo = 0.0
+            if voff is not None and not exact:
+                geo = order * 2 * eps * max(abs(pr["p1"][axis]), abs(pr["p1"][axis] + pr["cell"][axis] * n[axis])) / (n[axis] * dx)
             if exact:
                 bad = out != exp
             else:
-                bad = np.abs(out - exp) > 64 * eps * np.maximum(scale, np.maximum(np.abs(out), np.abs(exp)))
+                bad = np.abs(out - exp) > 64 * eps * np.maximum(scale, np.maximum(np.abs(out), np.abs(exp))) + geo * np.abs(exp)
             badcells = np.any(bad, axis=-1)
             sig = SIG_WRAP if (badcells.any() and not np.any(badcells & ~wrapcells)) else None
             ctx.require(not bad.any(), "C04.per_line_component", "a line/component differs from the 1-d oracle of its own mask and values",
@@ -464,7 +535,7 @@ def check_grid(pr, ctx):
                 if exact:
                     bad0 = d0.array != exp0
                 else:
-                    bad0 = np.abs(d0.array - exp0) > 64 * eps * np.maximum(scale0, np.maximum(np.abs(d0.array), np.abs(exp0)))
+                    bad0 = np.abs(d0.array - exp0) > 64 * eps * np.maximum(scale0, np.maximum(np.abs(d0.array), np.abs(exp0))) + geo * np.abs(exp0)
                 ctx.require(not bad0.any() and np.array_equal(d0.valid, valid), "C04.restrict_off",
                             "restrict2valid=False differs from the all-valid oracle (or validity not kept)", axis=axis, order=order,
                             nbad=int(bad0.sum()))
@@ -494,3 +565,375 @@ def check_grid(pr, ctx):
                 same[tuple(idx) + (c,)] = True
                 ctx.require(bool(same.all()), "C04.line_independence", "changing one line of one component changed another line/component",
                             axis=axis, order=order, line=rest, comp=c)
+
+
+# ------------------------------------------------------------------ scale / offset region (kind "offs")
+EPS = float(np.finfo(float).eps)
+CAPQ = 1 << 44                                     # dyadic data: |value| <= 2^44 quanta, every stencil intermediate < 2^53 quanta
+RATIOS2 = [None, 2.0 ** -7, 2.0 ** -14, 2.0 ** -17, 2.0 ** -20, 2.0 ** -27, 2.0 ** -34]
+RATIOS10 = [None, 1e-3, 1e-5, 3e-6, 1e-6, 1e-7, 1e-9, 1e-11]
+# literal decimal families of the form C + s1 x + s2 x^2 (x = cell-centre coordinate), with their cell size
+LITERALS = [[300.0, 1e-4, 0.0, 1.0], [8e5, 1e-3, 0.0, 1.0], [2.0 ** 20, 0.0, 0.0625, 1.0], [300.0, 1e-4, 0.0, 5e-9],
+            [8e5, 1e5, 0.0, 2.5e-9], [1e-12, 0.0, 1e-3, 1e-9], [-4.2e11, 3.0, 1e-7, 1e3], [1.0, 1e-9, 1e-10, 0.5]]
+
+
+def _offs_cases(ctx):
+    rng = ctx.rng
+    quick = ctx.tier == "quick"
+
+    def geo():
+        c = int(rng.integers(4))
+        j = int(rng.integers(-4, 5))
+        if c <= 1:
+            return j
+        sgn = 1 if rng.random() < 0.5 else -1
+        return sgn * ((1 << (12 if c == 2 else 24)) + j)
+
+    def dyadic(L, m, periodic):
+        return "offs", {"L": L, "mask": m, "periodic": periodic, "dyadic": True, "e": int(rng.integers(-30, 21)), "off": geo(),
+                        "seed": int(rng.integers(1 << 30))}
+
+    def randmask(L):
+        dens = [1.0, 0.9, 0.7, 0.5][int(rng.integers(4))]
+        return sum((1 << i) for i in range(L) if rng.random() < dens)
+
+    Lex = 8 if quick else 10
+    for L in range(1, Lex + 1):
+        for m in range(1 << L):
+            for periodic in (False, True):
+                yield dyadic(L, m, periodic)
+    for _ in range(200 if quick else 2000):
+        L = int(rng.integers(Lex + 1, 13))
+        yield dyadic(L, randmask(L), bool(rng.integers(2)))
+    for _ in range(600 if quick else 6000):
+        L = int(rng.integers(2, 13))
+        dx = float(round(float(rng.uniform(1, 10)), 2)) * 10.0 ** int(rng.integers(-9, 6))
+        off = float(rng.uniform(-20, 20)) if rng.random() < 0.6 else float(rng.uniform(-1, 1) * 10.0 ** int(rng.integers(2, 7)))
+        yield "offs", {"L": L, "mask": randmask(L), "periodic": bool(rng.integers(2)), "dyadic": False, "dx": dx, "off": off,
+                       "seed": int(rng.integers(1 << 30))}
+    for li, lit in enumerate(LITERALS):
+        for L in (5, 10):
+            for m in ((1 << L) - 1, ((1 << L) - 1) & ~(1 << (L // 2)), ((1 << L) - 1) & ~1 & ~(1 << (L - 2))):
+                for periodic in (False, True):
+                    yield "offs", {"L": L, "mask": m, "periodic": periodic, "dyadic": False, "dx": lit[3], "off": 0.0, "lit": li,
+                                   "seed": 11 + li}
+
+
+def _run_cells(mask, periodic, restrict):
+    """maximal runs as lists of cell indices in line / ring order"""
+    L = len(mask)
+    if not restrict:
+        return [list(range(L))]
+    if not periodic or all(mask) or not any(mask):
+        return [list(range(s, e)) for s, e in runs_of(mask)]
+    c = list(mask).index(False)
+    perm = [(c + k) % L for k in range(L)]
+    return [[perm[a] for a in range(s, e)] for s, e in runs_of([mask[p] for p in perm])]
+
+
+def _matrix(mask, periodic, order, restrict):
+    mk = list(mask) if restrict else [True] * len(mask)
+    return ring_matrix(mk, order) if periodic else open_matrix(mk, order)
+
+
+def _apply_exact(M, A, dxF, order):
+    """the stencil matrix applied to the floating-point values in exact rational arithmetic"""
+    L, K = A.shape
+    AF = [[Fr(float(A[i, k])) for k in range(K)] for i in range(L)]
+    MF = [[(i, Fr(float(M[j, i]))) for i in range(L) if M[j, i] != 0.0] for j in range(L)]
+    sc = dxF ** order
+    return [[sum((c * AF[i][k] for i, c in MF[j]), Fr(0)) / sc for k in range(K)] for j in range(L)]
+
+
+def _run_scale(A, runs, dx, order):
+    """per entry: max |value| over the entry's own run / dx^order (zero outside the runs)"""
+    S = np.zeros(A.shape)
+    for cells in runs:
+        S[cells, :] = np.max(np.abs(A[cells, :]), axis=0) / dx ** order
+    return S
+
+
+def _bad(got, EF, S, dyadic, geo=0.0):
+    """entries that differ from the exact-rational expectation (dyadic: ==, decimal: 64 ulp of the run scale plus the
+    relative rounding `geo` of the cell size that the region corners themselves carry)"""
+    L, K = got.shape
+    bad = np.zeros((L, K), dtype=bool)
+    for j in range(L):
+        for k in range(K):
+            g = float(got[j, k])
+            if not np.isfinite(g):
+                bad[j, k] = True
+            elif dyadic:
+                e = float(EF[j][k])
+                assert Fr(e) == EF[j][k], "dyadic expectation not representable (generator bound broken)"
+                bad[j, k] = g != e
+            else:
+                bad[j, k] = abs(Fr(g) - EF[j][k]) > Fr(64 * EPS * max(float(S[j, k]), abs(g)) + geo * abs(g))
+    return bad
+
+
+def _poly_eval(c, u, der, h):
+    """d^der/dx^der of sum_q c[q] ((x - xref)/h)^q at (x - xref)/h = u, exact"""
+    tot = Fr(0)
+    for q in range(der, len(c)):
+        f = 1
+        for t in range(der):
+            f *= (q - t)
+        tot += c[q] * f * u ** (q - der)
+    return tot / h ** der
+
+
+def _gen_data(rng, pr, mask, periodic, order, xF, dxF):
+    """K components; a polynomial per (restricted) run and component; values of the same scale in the invalid cells.
+    returns A (floats), polys[k] = {first cell of run: (coeffs, cells, uvals, h)}, const[k] (a representable constant)"""
+    L = len(mask)
+    dyadic = pr["dyadic"]
+    runs = _run_cells(mask, periodic, True)
+    K = 4
+    A = np.zeros((L, K))
+    polys = [dict() for _ in range(K)]
+    const = [0.0] * K
+    lit = pr.get("lit")
+    for k in range(K):
+        # scale classes: 0 tiny, no offset; 1 offset-dominated; 2 anything; 3 huge
+        if dyadic:
+            U = [int(rng.integers(-40, -29)), int(rng.integers(-12, 41)), int(rng.integers(-40, 41)), int(rng.integers(25, 41))][k]
+            ratio = [None, RATIOS2[int(rng.integers(3, 7))], RATIOS2[int(rng.integers(len(RATIOS2)))],
+                     RATIOS2[int(rng.integers(0, 3))]][k]
+            N = [0] * L
+            c0s = {}
+            for cells in runs:
+                n = len(cells)
+                deg = (2 if n >= 3 else 1) if order == 1 else (3 if n >= 4 else 2)
+                c = [0, int(rng.integers(-100, 101)), int(rng.integers(-20, 21)), int(rng.integers(-3, 4))]
+                for q in range(deg + 1, 4):
+                    c[q] = 0
+                if c[deg] == 0:
+                    c[deg] = 1
+                var = [c[1] * u + c[2] * u ** 2 + c[3] * u ** 3 for u in range(n)]
+                mv = max(1, max(abs(v) for v in var))
+                if ratio is None:
+                    c[0] = int(rng.integers(-50, 51))
+                else:
+                    c[0] = min(CAPQ - mv, int(mv / ratio) + int(rng.integers(0, 8)))
+                    if rng.random() < 0.5:
+                        c[0] = -c[0]
+                for u, i in enumerate(cells):
+                    N[i] = c[0] + var[u]
+                c0s[cells[0]] = c[0]
+                polys[k][cells[0]] = ([Fr(v) for v in c], cells, list(range(n)), None)
+            base = list(c0s.values())
+            for i in range(L):
+                if not mask[i]:
+                    b = base[int(rng.integers(len(base)))] if base else int(rng.integers(-50, 51))
+                    N[i] = b + int(rng.integers(-9, 10))
+            top = max(1, max(abs(v) for v in N))
+            q = 2.0 ** (U - top.bit_length())
+            A[:, k] = [float(v) * q for v in N]
+            polys[k] = {s: ([v * Fr(q) for v in c], cells, us, dxF) for s, (c, cells, us, _) in polys[k].items()}
+            const[k] = float(base[0] if base else N[0]) * q
+        elif lit is not None and k == 0:
+            C, s1, s2, _ = LITERALS[lit]
+            c = [Fr(C), Fr(s1), Fr(s2), Fr(0)]
+            for cells in runs:
+                n = len(cells)
+                us = [xF[cells[0]] + u * dxF for u in range(n)]      # ring-unrolled coordinate
+                if order == 1 and n < 3:
+                    cc = [c[0], c[1], Fr(0), Fr(0)]
+                else:
+                    cc = c
+                for u, i in zip(us, cells):
+                    A[i, k] = float(_poly_eval(cc, u, 0, Fr(1)))
+                polys[k][cells[0]] = (cc, cells, us, Fr(1))
+            for i in range(L):
+                if not mask[i]:
+                    A[i, k] = C * (1.0 + 1e-7 * float(rng.uniform(-1, 1)))
+            const[k] = C
+        else:
+            U = [int(rng.integers(-12, -8)), int(rng.integers(-4, 13)), int(rng.integers(-12, 13)), int(rng.integers(8, 13))][k]
+            ratio = [None, RATIOS10[int(rng.integers(2, 8))], RATIOS10[int(rng.integers(len(RATIOS10)))],
+                     RATIOS10[int(rng.integers(0, 3))]][k]
+            Cs = []
+            for cells in runs:
+                n = len(cells)
+                deg = (2 if n >= 3 else 1) if order == 1 else (3 if n >= 4 else 2)
+                C = float(rng.uniform(1, 10)) * 10.0 ** U * (1 if rng.random() < 0.5 else -1)
+                b = [float(rng.uniform(-1, 1)) for _ in range(4)]
+                if ratio is None:
+                    c = [Fr(C * b[0])] + [Fr(C) * Fr(b[q]) / n ** q for q in (1, 2, 3)]
+                else:
+                    c = [Fr(C)] + [Fr(C) * Fr(ratio) * Fr(b[q]) / n ** q for q in (1, 2, 3)]
+                for q in range(deg + 1, 4):
+                    c[q] = Fr(0)
+                for u, i in enumerate(cells):
+                    A[i, k] = float(_poly_eval(c, Fr(u), 0, Fr(1)))
+                polys[k][cells[0]] = (c, cells, list(range(n)), dxF)
+                Cs.append(float(c[0]))
+            for i in range(L):
+                if not mask[i]:
+                    b = Cs[int(rng.integers(len(Cs)))] if Cs else 10.0 ** U
+                    A[i, k] = b * (1.0 + 1e-6 * float(rng.uniform(-1, 1)))
+            const[k] = Cs[0] if Cs else float(A[0, k])
+    return A, polys, const
+
+
+def _gen_deviation(rng, pr, L):
+    """component c < K-1: a constant line with one deviating cell (|deviation| << |constant|); last component: exactly constant"""
+    dyadic = pr["dyadic"]
+    cellsel = sorted(rng.choice(L, size=min(L, 5), replace=False).tolist())
+    K = len(cellsel) + 1
+    A = np.zeros((L, K))
+    for k in range(K):
+        if dyadic:
+            U = int(rng.integers(-40, 41))
+            d = int(rng.integers(1, 100)) * (1 if rng.random() < 0.5 else -1)
+            ratio = RATIOS2[int(rng.integers(1, len(RATIOS2)))]
+            c0 = min(CAPQ - 100, int(abs(d) / ratio)) * (1 if rng.random() < 0.5 else -1)
+            q = 2.0 ** (U - abs(c0).bit_length())
+            A[:, k] = float(c0) * q
+            if k < K - 1:
+                A[cellsel[k], k] = float(c0 + d) * q
+        else:
+            C = float(rng.uniform(1, 10)) * 10.0 ** int(rng.integers(-12, 13)) * (1 if rng.random() < 0.5 else -1)
+            ratio = RATIOS10[int(rng.integers(1, len(RATIOS10)))]
+            A[:, k] = C
+            if k < K - 1:
+                A[cellsel[k], k] = C * (1.0 + ratio * float(rng.uniform(0.5, 1) * (1 if rng.random() < 0.5 else -1)))
+    return A
+
+
+def check_offs(pr, ctx):
+    L, m, periodic, dyadic = pr["L"], pr["mask"], pr["periodic"], pr["dyadic"]
+    mask = [bool((m >> i) & 1) for i in range(L)]
+    valid = np.array(mask, dtype=bool)
+    if L == 1:
+        ctx.trivial()
+    rng = np.random.default_rng(pr["seed"])
+    if dyadic:
+        dx = 2.0 ** pr["e"]
+        p1, p2 = pr["off"] * dx, (pr["off"] + L) * dx
+    else:
+        dx = float(pr["dx"])
+        p1 = pr["off"] * dx
+        p2 = p1 + L * dx
+    mesh = df.Mesh(p1=p1, p2=p2, n=L, bc="x" if periodic else "")
+    dxF = (Fr(p2) - Fr(p1)) / L                         # the cell size of the region handed over, exact
+    if dyadic:
+        assert mesh.cell[0] == dx == float(dxF)
+    xF = [Fr(p1) + (Fr(2 * i + 1) / 2) * dxF for i in range(L)]
+    # decimal regions: a corner is only given to 1 ulp of its own magnitude; spread over the line this is a relative
+    # uncertainty of the cell size (and `order` times that of the derivative).  Zero for dyadic regions.
+    geo1 = 0.0 if dyadic else 2 * EPS * max(abs(p1), abs(p2)) / (L * dx)
+    wrapc = wrap_run_cells(mask) if periodic else set()
+    ring_clause = "C04.ring_centred" if all(mask) else "C04.ring_runs"
+
+    def field(A, v=None):
+        return df.Field(mesh, nvdim=A.shape[1], value=A.copy(), valid=(valid if v is None else v).copy(), unit="K")
+
+    def run(A, order, restrict, clause, v=None):
+        r, d = raises(Exception, field(A, v).diff, "x", order=order, restrict2valid=restrict)
+        if r:
+            ctx.require(False, clause, "diff raised", sig="raises-" + type(d).__name__, error=repr(d), order=order, restrict=restrict)
+            return None
+        return d
+
+    def against_matrix(A, got, order, restrict, what):
+        """got == stencil matrix of the mask applied to A in exact rational arithmetic"""
+        runs = _run_cells(mask, periodic, restrict)
+        EF = _apply_exact(_matrix(mask, periodic, order, restrict), A, dxF, order)
+        S = _run_scale(A, runs, dx, order)
+        bad = _bad(got, EF, S, dyadic, order * geo1)
+        rows = sorted(set(np.nonzero(bad.any(axis=1))[0].tolist()))
+        det = dict(order=order, restrict=restrict, mask=[int(b) for b in mask], rows=rows, data=what,
+                   got=got[rows], want=[[float(v) for v in EF[j]] for j in rows], values=A)
+        if periodic:
+            full = all(mask) or not restrict
+            sig = SIG_WRAP if (rows and not full and set(rows) <= wrapc) else None
+            ctx.require(not rows, "C04.ring_centred" if full else "C04.ring_runs",
+                        "ring: result differs from the wrap-around stencil matrix applied exactly to the values", sig=sig, **det)
+        else:
+            ctx.require(not rows, "C04.exact_rational", "result differs from the per-run stencil matrix applied exactly to the values", **det)
+        if not restrict:
+            ctx.require(not rows, "C04.restrict_off", "restrict2valid=False: result differs from the single-run stencil matrix applied exactly",
+                        **det)
+        else:
+            zero = [j for j in range(L) if not mask[j] or ((not periodic or not all(mask)) and _runlen(mask, j, periodic) <= order)]
+            ctx.require(not np.any(got[zero, :]), "C04.zero_short_invalid", "non-zero result in an invalid cell or a run not longer than the order",
+                        order=order, mask=[int(b) for b in mask], data=what, got=got[zero])
+        return rows
+
+    for order in (1, 2):
+        A, polys, const = _gen_data(rng, pr, mask, periodic, order, xF, dxF)
+        Cv = np.array(const)
+        G = A - Cv                                       # dyadic: exact; decimal: G + c rounds to A within 1/2 ulp of |A|
+        Dv = _gen_deviation(rng, pr, L)
+        res = {}
+        for restrict in (True, False):
+            d = run(A, order, restrict, "C04.exact_rational" if not periodic else ring_clause)
+            if d is None:
+                continue
+            got = d.array
+            res[restrict] = got
+            ctx.require(_meta_ok(d, field(A)), "C04.metadata", "mesh/vdims/unit/vdim_mapping/valid not kept", order=order, restrict=restrict)
+            against_matrix(A, got, order, restrict, "polynomial per run")
+            # analytic derivative of the polynomials (open lines; with the restriction off only fully valid lines are one polynomial)
+            if not periodic and (restrict or all(mask)):
+                S = _run_scale(A, _run_cells(mask, False, True), dx, order)
+                badp = []
+                for k in range(A.shape[1]):
+                    for s, (c, cells, us, h) in polys[k].items():
+                        if len(cells) <= order:
+                            continue
+                        for u, i in zip(us, cells):
+                            want = _poly_eval(c, Fr(u), order, Fr(h))
+                            g = float(got[i, k])
+                            if dyadic:
+                                okp = np.isfinite(g) and Fr(g) == want
+                            else:
+                                okp = np.isfinite(g) and abs(Fr(g) - want) <= Fr(64 * EPS * max(float(S[i, k]), abs(g)) + order * geo1 * abs(g))
+                            if not okp:
+                                badp.append([i, k, g, float(want), float(A[i, k])])
+                ctx.require(not badp, "C04.poly_exact_offset", "derivative of a per-run polynomial with a dominant constant term / at an extreme scale is not exact",
+                            order=order, restrict=restrict, mask=[int(b) for b in mask], nbad=len(badp), first=badp[:4], dx=dx)
+            # linearity with a constant
+            dg = run(G, order, restrict, "C04.offset_invariance")
+            if dg is not None:
+                if dyadic:
+                    badc = dg.array != got
+                else:
+                    S = _run_scale(np.maximum(np.abs(A), np.abs(G)), _run_cells(mask, periodic, restrict), dx, order)
+                    badc = ~(np.abs(dg.array - got) <= 64 * EPS * np.maximum(S, np.maximum(np.abs(got), np.abs(dg.array))))
+                ctx.require(not badc.any(), "C04.offset_invariance", "diff(g + c) != diff(g) for a per-component constant c",
+                            order=order, restrict=restrict, periodic=periodic, mask=[int(b) for b in mask], c=Cv,
+                            first=[int(v) for v in np.argwhere(badc)[0]] if badc.any() else None, with_c=got, without_c=dg.array)
+            # constant lines, lines constant except one cell
+            dd = run(Dv, order, restrict, "C04.exact_rational" if not periodic else ring_clause)
+            if dd is not None:
+                against_matrix(Dv, dd.array, order, restrict, "constant line with one deviating cell")
+            # ring: cyclic shifts
+            if periodic and L > 1:
+                for s in (sorted({1, L // 2}) if restrict else [L - 1]):
+                    smask = np.roll(valid, s)
+                    ds = run(np.roll(A, s, axis=0), order, restrict, "C04.ring_shift", v=smask)
+                    if ds is None:
+                        continue
+                    badrows = set(np.nonzero(np.any(ds.array != np.roll(got, s, axis=0), axis=1))[0].tolist())
+                    known = wrap_run_cells(smask.tolist()) | {(j + s) % L for j in wrapc}
+                    sig = SIG_WRAP if (badrows and restrict and badrows <= known) else None
+                    ctx.require(not badrows, "C04.ring_shift", "diff does not commute with the cyclic shift (offset-dominated / scaled data)",
+                                sig=sig, order=order, restrict=restrict, shift=s, mask=[int(b) for b in mask], rows=sorted(badrows))
+        # independence of runs: other runs moved to another offset and scale, invalid cells to +-1e300
+        runs = _run_cells(mask, periodic, True)
+        if runs and True in res:
+            keep = runs[int(rng.integers(len(runs)))]
+            A2 = np.where(rng.random(A.shape) < 0.5, 1e300, -1e300)
+            for cells in runs:
+                A2[cells, :] = A[cells, :] * (2.0 ** rng.integers(-20, 21, size=A.shape[1])) + Cv * float(rng.integers(-3, 4))
+            A2[keep, :] = A[keep, :]
+            d2 = run(A2, order, True, "C04.run_isolation")
+            if d2 is not None:
+                badrows = set(j for j in keep if np.any(d2.array[j] != res[True][j]))
+                sig = SIG_WRAP if (badrows and badrows <= wrapc) else None
+                ctx.require(not badrows and not np.any(d2.array[~valid]), "C04.run_isolation",
+                            "values outside the run (other offset / scale) change the run's result (or invalid cells become non-zero)",
+                            sig=sig, order=order, mask=[int(b) for b in mask], run=keep)
